@@ -443,6 +443,12 @@ func (g *sgen) genNode(c *nodeCtx) *Stmt {
 		var caseNames []string
 		// names inside all cases share the parent's sibling namespace
 		kc := &nodeCtx{depth: c.depth + 1, config: cfgv, inGrouping: c.inGrouping, siblings: c.siblings, status: st}
+		if c.depth == 0 && !g.noUses {
+			// the data nodes of a top-level choice are top-level nodes of the
+			// module set (one flat name space across modules): no groupings here
+			g.noUses = true
+			defer func() { g.noUses = false }()
+		}
 		for i := 0; i < ncases; i++ {
 			if g.chance(1, 3) {
 				// shorthand case
